@@ -66,11 +66,36 @@ def generate(tier, seed):
 
 def original_symbol(d, names_in_task, declared):
     """Which symbolic constant of the task a declared TFF constant stands for, read off the *input*: a declared constant
-    that is not written anywhere in the task can only be a renamed one (<name>__s stands for <name>), unless <name> is
-    declared as a constant too (then they are two constants)."""
-    if d.endswith('__s') and d[:-3] in names_in_task and d not in names_in_task and d[:-3] not in declared:
-        return d[:-3]
-    return d
+    that is not written anywhere in the task can only be a renamed one. Under anthem's scheme <name>__s stands for <name>;
+    under any other scheme the reading is accepted when exactly one name of the task is a prefix of the constant and is not
+    declared as a constant itself. A constant that is written in the task stands for itself."""
+    if d in names_in_task:
+        return d
+    if d.endswith('__s') and d[:-3] in names_in_task:
+        return d[:-3] if d[:-3] not in declared else d
+    stems = [c for c in names_in_task if d.startswith(c) and c not in declared]
+    return stems[0] if len(stems) == 1 else d
+
+
+def is_order_axiom(body, decl_symbols):
+    if body[0] != 'atomf' or body[1][1] != 'p__less__' or len(body[1][2]) != 2:
+        return False
+    for a in body[1][2]:
+        if a[1] != 'f__symbolic__' or len(a[2]) != 1 or a[2][0][2] or a[2][0][1] not in decl_symbols:
+            return False
+    return True
+
+
+def is_transition_shape(f, table):
+    """forall* (h-copy of p applied to variables -> t-copy of p applied to the same variables): no program rule yields this
+    shape (gamma never puts an h-atom in the antecedent of an implication whose consequent is a t-atom)"""
+    while f[0] == 'forall':
+        f = f[2]
+    if f[0] != 'imp' or f[1][0] != 'atom' or f[2][0] != 'atom':
+        return False
+    l, r = f[1], f[2]
+    kl, kr = table.get((str(l[1]), len(l) - 2)), table.get((str(r[1]), len(r) - 2))
+    return bool(kl and kr and kl[:2] == kr[:2] and kl[2] == 'h' and kr[2] == 't' and l[2:] == r[2:])
 
 
 def valid(build, timeout=8000):
@@ -149,9 +174,10 @@ def check_item(item):
             out.append(r)
             continue
         aliases = symbol_aliases([p], texts)
-        decl_symbols = [it['body'][1] for it in items if it['role'] == 'type' and it['body'][2] == 'symbol'
-                        and it['name'].startswith('type_symbol_')]
-        order_ax = [it for it in items if it['role'] == 'axiom' and it['name'].startswith('symbol_order_')]
+        # selected by shape, not by formula name: constants declared at type `symbol`; axioms of the form
+        # p__less__(f__symbolic__(c), f__symbolic__(d)) over such constants
+        decl_symbols = [it['body'][1] for it in items if it['role'] == 'type' and it['body'][2] == 'symbol']
+        order_ax = [it for it in items if it['role'] == 'axiom' and is_order_axiom(it['body'], decl_symbols)]
         key_part = (tuple(decl_symbols), tuple(render_ast(it['body']) for it in order_ax))
         # ---- (b) symbol order chain
         if key_part not in seen_texts:
@@ -208,7 +234,7 @@ def check_item(item):
             for (name, arity), (hn, tn) in copies.items():
                 table[(hn, arity)] = (name, arity, 'h')
                 table[(tn, arity)] = (name, arity, 't')
-            trans = [f for f in p['formulas'] if 'transition_axiom' in f['name']]
+            trans = [f for f in p['formulas'] if f['role'] == 'axiom' and ('transition_axiom' in f['name'] or is_transition_shape(f['formula'], table))]
             for f in trans:
                 r = dict(base)
                 r.update(key='%s#%s' % (item['label'], f['name']), input='%s [%s]' % (item['label'], f['name']), output=f['tptp'],
